@@ -9,6 +9,12 @@ TRUST = ("Trusted: go/types + go/ssa of x/tools v0.50.0 (the program model), the
          "and the named assumptions in the evidence file. Paths are over-approximated (no feasibility check). "
          "Third-party libraries (bbolt, gRPC, protobuf-go, OpenPGP, zstd, backoff) are not analysed.")
 
+# properties that also carry the error-discipline / failure-atomicity rules (engine E8)
+E8 = {p: " + error-discipline census (an error result becomes success only behind a listed class test)" for p in
+      ("C01", "C04", "C06", "C07", "C08", "C10", "C11", "C15", "C16", "C17", "C18", "C20")}
+for p in ("C01", "C15", "C17", "C20"):
+    E8[p] += " + failure-atomicity scan (no receiver-state write before a failure return)"
+
 # id -> (technique, level text, design ref)
 CLAIMS = {
     "C01": ("lockset (guarded-by) analysis + path-cut guard chains + value provenance + type-level error tables + delegation shape",
@@ -129,7 +135,7 @@ def main():
             "engine": "cosilint",
             "level_claimed": {"category": "other", "text": text, "design_ref": "DESIGN.md " + ref},
             "level_note": TRUST,
-            "technique": "static analysis: " + tech + " (evaluated on go/ssa after helper inlining; reachability is path-sensitive on SSA value identity, no solver)",
+            "technique": "static analysis: " + tech + E8.get(pid, "") + " (evaluated on go/ssa after helper inlining; reachability is path-sensitive on SSA value identity, no solver)",
         })
     na = []
     for pid in ALL:
@@ -150,7 +156,7 @@ def main():
             "name": "cosilint",
             "path": "checker/",
             "serves_properties": sorted(CLAIMS),
-            "kind_free_text": "repository-specific static analyser (go/packages + go/ssa): path-cut reachability, lockset, value provenance/taint, table agreement, who-may-access, guard normal forms",
+            "kind_free_text": "repository-specific static analyser (go/packages + go/ssa): path-cut reachability, lockset, value provenance/taint, table agreement, who-may-access, guard normal forms, error-discipline census",
         }],
         "checks": checks,
         "not_applicable": na,
